@@ -226,6 +226,12 @@ func (d *badgerNodeDB) cleanMultipartLocked(removeNodes bool) error {
 		return nil
 	}
 
+	if lastFinalizedVersion, exists := d.meta.getLastFinalizedVersion(); exists && version <= lastFinalizedVersion {
+		// The restore has already been finalized (e.g. the process was interrupted right after
+		// finalization), so the logged nodes are in use and must not be removed.
+		removeNodes = false
+	}
+
 	txn := d.db.NewTransactionAt(tsMetadata, false)
 	defer txn.Discard()
 
